@@ -235,6 +235,9 @@ class K12d(Harness):
                 out.append({"where": where, "N": n})
             for fixed in ("a_1", "global", "group", "old_003", "b_2"):
                 out.append({"where": where, "fixed": fixed})
+            if where != "top":
+                out.append({"where": where, "N": 3, "valid_top": True})
+                out.append({"where": where, "fixed": "old_003", "valid_top": True})
         return out
 
     def run(self, eng, p):
@@ -246,7 +249,7 @@ class K12d(Harness):
         r2 = ConfRule("b", "2", ["g"])
         old = OldRule()
         section = core.SymKeyDict([(name, {"disable": True})]) if name != "group" else {name: {"g": {"disable": True}}}
-        dconf = {"rule": {}}
+        dconf = {"rule": {"b_2": {"indent_size": 3}, "global": {"fixable": True}} if p.get("valid_top") else {}}
         if p["where"] == "top":
             dconf["rule"] = section
         elif p["where"] == "file_list":
@@ -317,6 +320,45 @@ class K12e(Harness):
         got = {k: v for k, v in c2.dConfig.items() if k != "pragma"}
         clauses = [("later_build_unaffected", core.Eq(got, base)), ("severities_unaffected", [s.name for s in c2.severity_list.get_severities()] == sev0),
                    ("file_applied", core.Eq(c1.dConfig["rule"]["signal_004"]["disable"], fileA["rule"]["signal_004"]["disable"]))]
+        return clauses
+
+    signature = staticmethod(_sig)
+
+
+@register
+class K13c(Harness):
+    name = "K13c"
+    prop = "C13"
+    title = "the skip_phase list of the configuration reaches the run unchanged, whatever --fix_phase is"
+    functions = ("vsg.config",)
+    stubs = ("config.update_command_line_arguments called directly with a command-line object and a configuration dictionary",)
+    bounds = "skip_phase = list of 0..2 symbolic phases 1..7 (or absent); --fix_phase symbolic 1..7 (int or numeric string)"
+    outside = "skip_phase given as a scalar"
+    exception_props = ("C13", "C19")
+
+    def params(self, tier):
+        return [{"n": 0}, {"n": 1}, {"n": 2}, {"n": 1, "fp_str": True}]
+
+    def run(self, eng, p):
+        from .lfam import CLA
+        from sx.instrument import sx_str
+
+        cla = CLA()
+        cla.fix = eng.bool("fix")
+        fp = eng.int("fix_phase", 1, 7)
+        cla.fix_phase = sx_str(fp) if p.get("fp_str") else fp
+        skips = [eng.int("skip%d" % i, 1, 7) for i in range(p["n"])]
+        present = eng.bool("skip_key_present") if p["n"] == 0 else True
+        conf = {"rule": {}}
+        if present:
+            conf["skip_phase"] = list(skips)
+        config.update_command_line_arguments(cla, conf)
+        got = list(cla.skip_phase)
+        clauses = []
+        for q in range(1, 8):
+            want = core.Or([core.f_of(s == q) for s in skips]) if skips else False
+            have = core.Or([core.f_of(g == q) for g in got]) if got else False
+            clauses.append(("phase%d_skipped_iff_configured" % q, core.Iff(want, have)))
         return clauses
 
     signature = staticmethod(_sig)
